@@ -276,6 +276,12 @@ def setStyles (l : List (Str × Option Str)) (e : El) : El := l.foldl (fun e p =
 /-- `str(tag.style)` -/
 def styleStr (e : El) : Str := asStr e.sty
 
+/-- `StyleAttribute.__eq__` on the two maps: same key sets, and every key of the left map has the same value
+    in both (`other` given as a string is parsed with `styleToDict` first) -/
+def styleEq (a b : AL Str) : Bool :=
+  ((akeys a).all (fun k => (akeys b).contains k) && (akeys b).all (fun k => (akeys a).contains k))
+    && (akeys a).all (fun k => aget k a == aget k b)
+
 /-! ### `SpecialAttributesDict` -/
 
 /-- `_handleClassAttr`: the lazy synchronisation of the `class` key (and of the `style` key). -/
